@@ -10,6 +10,7 @@ import (
 	"strings"
 	"sync/atomic"
 
+	dtu "github.com/siglens/siglens/pkg/common/dtypeutils"
 	eswriter "github.com/siglens/siglens/pkg/es/writer"
 	"github.com/siglens/siglens/pkg/integrations/loki"
 	otsdbwriter "github.com/siglens/siglens/pkg/integrations/otsdb/writer"
@@ -18,7 +19,6 @@ import (
 	"github.com/siglens/siglens/pkg/integrations/splunk"
 	"github.com/siglens/siglens/pkg/otlp"
 	"github.com/siglens/siglens/pkg/segment"
-	dtu "github.com/siglens/siglens/pkg/common/dtypeutils"
 	"github.com/siglens/siglens/pkg/segment/structs"
 	"github.com/siglens/siglens/pkg/segment/writer/metrics"
 	"github.com/valyala/fasthttp"
